@@ -3,8 +3,8 @@
    The system: Model/RetrySys.v (client write programs, sequencer with the enqueue-before-commit order, FIFO retry
    queue, one retry iteration in atomic actions, compaction cap; every commit takes an environment choice).
    A label list is an arbitrary interleaving of all of these, with arbitrary fault placements. *)
-From KB Require Import Base.Cases Model.RetrySys Model.C09Cases
-  Proofs.RetryBase Proofs.RetryInv1 Proofs.RetryInv2 Proofs.RetryProps Proofs.RetryInv3 Proofs.RetryInvX Proofs.RetryAck Proofs.C09Cases Proofs.C09Sim Proofs.C09Oracle Proofs.RetryWitness.
+From KB Require Import Base.Cases Model.RetrySys Model.C09Cases Model.C09Fronts Model.RetryCompact
+  Proofs.RetryBase Proofs.RetryInv1 Proofs.RetryInv2 Proofs.RetryProps Proofs.RetryInv3 Proofs.RetryInvX Proofs.RetryAck Proofs.C09Cases Proofs.C09Sim Proofs.C09Oracle Proofs.C09Fronts Proofs.RetryTerm Proofs.RetryDrain Proofs.C09Fuel Proofs.C09Examples Proofs.RetryCompact Proofs.RetryCompactThms Proofs.RetryWitness.
 Local Open Scope N_scope.
 
 (* ---------- error class ---------- *)
@@ -189,6 +189,12 @@ Theorem C09_oracle_sound : forall c, c09_valid c -> c09_check c = true -> c09_or
 Proof. exact oracle_sound. Qed.
 Print Assumptions C09_oracle_sound.
 
+(* validity is evaluated inside the check (c09_validb, per case, on every run): a case that passes it is either marked
+   outside the stated assumptions (then the oracle reports nothing, by definition) or valid — no side condition *)
+Theorem C09_oracle_sound_checked : forall c, c09_check c = true -> c09_oracle c = None.
+Proof. exact oracle_sound_checked. Qed.
+Print Assumptions C09_oracle_sound_checked.
+
 Theorem C09_oracle_valid_decidable : forall c, c09_validb c = true -> c09_valid c.
 Proof. exact c09_validb_spec. Qed.
 Print Assumptions C09_oracle_valid_decidable.
@@ -196,3 +202,219 @@ Print Assumptions C09_oracle_valid_decidable.
 Example C09_oracle_valid_inhabited :
   c09_validb (self_case sc_clean) = true /\ c09_validb (self_case sc_F1) = true /\ c09_validb (self_case sc_F2) = true.
 Proof. exact valid_on_model. Qed.
+
+(* ---------- the front ends of the driver (harness/cmd/c09/fronts.go) re-use model and oracle: why that is legitimate ---------- *)
+(* metrics+<engine>: the decorator model hands the commit's error on unchanged (deco_commit eo := eo), so these two hold by
+   definition; the content — that pkg/storage/metrics' Commit does so — is the driver's table extra.metrics_decorator_error_table,
+   checked on every run *)
+Theorem C09_front_metrics_transparent_by_definition : forall s b e, commit_via deco_commit s b e = commit s b e.
+Proof. exact deco_transparent. Qed.
+Print Assumptions C09_front_metrics_transparent_by_definition.
+
+Theorem C09_front_identity_run_by_definition : forall f, (forall e, f e = e) -> forall ls s, run s (map (front_label f) ls) = run s ls.
+Proof. exact front_id_run. Qed.
+Print Assumptions C09_front_identity_run_by_definition.
+
+(* the re-formatting decorator (seeded/C09-7) over an applied batch with unknown outcome is no engine of the model *)
+Theorem C09_front_metrics_reformat_outside : forall s b,
+  cond_holds (b_cond b) (k_idx (s (b_key b))) = true -> apply_batch s b <> s ->
+  forall e', commit s b e' <> commit_via deco_commit_reformat s b (EnvUnknown true false).
+Proof. exact deco_reformat_outside. Qed.
+Print Assumptions C09_front_metrics_reformat_outside.
+
+(* etcd+<engine>: one backend call per Txn, each class of backend answer is the same class of client answer *)
+Theorem C09_front_etcd_class : forall backend op, tresp_class (etcd_txn backend op) = resp_class (backend op).
+Proof. exact etcd_txn_class. Qed.
+Print Assumptions C09_front_etcd_class.
+
+(* C09_error_class through the front: an unknown outcome reaches the etcd client as the unknown-outcome RPC error *)
+Theorem C09_front_etcd_error_class : forall r0 ls,
+  Forall wf_label ls -> let s := run (init_state r0) ls in
+  forall t th r, get_thread t (s_threads s) = Some th -> t_unk th = true -> t_pc th = PDone r ->
+  etcd_txn (fun _ => r) (t_op th) = TErr true.
+Proof. exact etcd_error_class. Qed.
+Print Assumptions C09_front_etcd_error_class.
+
+Example C09_front_etcd_error_class_inhabited :
+  let s := run (init_state 10) (firstn 17 repaired_witness) in
+  Forall wf_label (firstn 17 repaired_witness) /\
+  exists th, get_thread 2 (s_threads s) = Some th /\ t_unk th = true /\ t_pc th = PDone (RErr true) /\
+             op_is_write (t_op th) = true /\ snap s 13 0 = Some (v2, 13) /\ s_committed s = 12.
+Proof. exact etcd_error_class_inhabited. Qed.
+
+(* what the driver records of a TxnResponse determines it, and the oracle's class clause on the record says: unknown
+   outcome => the client was given TErr true *)
+Theorem C09_front_etcd_record_faithful : forall t1 t2, etcd_decode t1 = etcd_decode t2 -> t1 = t2.
+Proof. exact etcd_decode_inj. Qed.
+Print Assumptions C09_front_etcd_record_faithful.
+
+Theorem C09_front_etcd_class_clause : forall t unk c q,
+  class_ok {| o_d := OResp (etcd_decode t) unk; o_committed := c; o_queue := q |} = true <-> (unk = true -> t = TErr true).
+Proof. exact etcd_class_clause. Qed.
+Print Assumptions C09_front_etcd_class_clause.
+
+(* every answer of the model to a create / update / delete has the shape the etcd shim keeps, so the recorded
+   observation behind the front is the backend's answer itself (what c09_check compares) *)
+Theorem C09_front_etcd_answers_kept : forall r0 ls,
+  let s := run (init_state r0) ls in
+  forall t th r, get_thread t (s_threads s) = Some th -> op_is_write (t_op th) = true -> t_pc th = PDone r ->
+  resp_shape (t_op th) r = true /\ etcd_decode (etcd_txn (fun _ => r) (t_op th)) = r.
+Proof. exact model_answers_shaped. Qed.
+Print Assumptions C09_front_etcd_answers_kept.
+
+(* a second hand-over of a failed write (seeded/C09-8) turns a landed unknown outcome into "failed condition" *)
+Example C09_front_etcd_twice_refuted :
+  let first := fun _ : wop => RErr true in
+  let second := fun _ : wop => RCond 13 (Some ([118; 50], 12)) in
+  let t := etcd_txn_twice first second (OUpdate 0 [118; 50] 11) in
+  t = TResp false 13 (Some ([118; 50], 12)) /\
+  class_ok {| o_d := OResp (etcd_decode t) true; o_committed := 13; o_queue := 1 |} = false.
+Proof. exact etcd_twice_refuted. Qed.
+
+(* /repo 1eb892a (tso.Commit raises, never lowers): every commit of the model raises, so it models both versions *)
+Theorem C09_commit_raise_only : forall r0 ls l,
+  Forall wf_label ls -> let s := run (init_state r0) ls in
+  N.max (s_committed s) (s_committed (step s l)) = s_committed (step s l).
+Proof. exact tso_commit_raise_only. Qed.
+Print Assumptions C09_commit_raise_only.
+
+(* ---------- a request is answered ---------- *)
+(* in every state of every run (no assumption on the labels), a request that exists is answered once seven more of its
+   own actions have been taken — whatever the other requests, the sequencer, the retry loop and the clock do in between
+   and whatever the environment answers to its commits and reads *)
+Theorem C09_request_terminates : forall r0 ls0 ls t th,
+  let s := run (init_state r0) ls0 in
+  get_thread t (s_threads s) = Some th -> (7 <= own_steps t ls)%nat ->
+  exists th', get_thread t (s_threads (run s ls)) = Some th' /\ t_op th' = t_op th /\ thread_done th' = true.
+Proof. exact request_terminates. Qed.
+Print Assumptions C09_request_terminates.
+
+Example C09_request_terminates_inhabited :
+  let s := run (init_state 10) [LInvoke 0 (OCreate 0 [118])] in
+  (exists th, get_thread 0 (s_threads s) = Some th /\ t_pc th = PStart) /\ own_steps 0 term_ls = 7%nat /\
+  exists th', get_thread 0 (s_threads (run s term_ls)) = Some th' /\ t_pc th' = PDone (RErr true).
+Proof. exact request_terminates_inhabited. Qed.
+
+(* ---------- compaction's deletions (Model/RetryCompact.v) ----------
+   XDel k r R: the engine delete of version record (k, r) issued by a compaction at revision R, a label of its own,
+   interleaved arbitrarily.  Guard (xwf): R is a revision Backend.Compact may use — at most the committed revision and
+   below every revision in the retry queue, which is what C09_compact_capped proves of the capped revision — and the
+   premise of C07_safe_remove holds on the key's version records (cited, not re-proved: premise1 is that premise on one
+   key's version list).  A lockstep simulation with the run without deletions (Proofs/RetryCompact.v, xrun_sim). *)
+(* every answer, every published event, the committed revision, the retry queue and every read at a revision >= the floor
+   are those of the run without the deletions *)
+Theorem C09_compaction_invisible : forall r0 xs,
+  xwf_all (init_state r0) xs -> let p := xrun (init_state r0) xs in let l := run (init_state r0) (base_labels xs) in
+  Forall wf_label (base_labels xs) /\ s_threads p = s_threads l /\ s_events p = s_events l /\ s_committed p = s_committed l /\
+  s_queue p = s_queue l /\ forall R k, floor_from 0 xs <= R -> snap p R k = snap l R k.
+Proof. exact xrun_observables. Qed.
+Print Assumptions C09_compaction_invisible.
+
+(* C09_converges with compaction's deletions interleaved, incl. inside the retry window (reads below the floor are refused
+   by the implementation, so R0 >= floor is the whole domain) *)
+Theorem C09_converges_with_compaction : forall r0 xs,
+  xwf_all (init_state r0) xs -> let p := xrun (init_state r0) xs in
+  quiescentb p = true -> forall R0 k, floor_from 0 xs <= R0 -> converged_at p R0 k.
+Proof. exact xconverges. Qed.
+Print Assumptions C09_converges_with_compaction.
+
+Theorem C09_compaction_floor_committed : forall r0 xs,
+  xwf_all (init_state r0) xs -> floor_from 0 xs <= s_committed (xrun (init_state r0) xs).
+Proof. exact floor_below_committed. Qed.
+Print Assumptions C09_compaction_floor_committed.
+
+(* the revision Backend.Compact answers with — computed in a state reached with deletions interleaved — satisfies the
+   cap part of XDel's guard (C09_compact_capped carried over) *)
+Theorem C09_compaction_answer_is_guard : forall r0 xs,
+  xwf_all (init_state r0) xs -> let p := xrun (init_state r0) xs in
+  forall t th req cur e, get_thread t (s_threads p) = Some th -> t_op th = OCompact req -> t_pc th = PCompact2 cur ->
+  exists c, thread_step p (t_op th) (t_pc th) e = (p, PDone (RCompacted c), false) /\ cap_ok p c.
+Proof. exact compact_answer_cap_ok. Qed.
+Print Assumptions C09_compaction_answer_is_guard.
+
+Theorem C09_compaction_valid_decidable : forall xs s, xwf_allb s xs = true -> xwf_all s xs.
+Proof. exact xwf_allb_spec. Qed.
+Print Assumptions C09_compaction_valid_decidable.
+
+(* a delete lands with unknown outcome @13; a compaction at the capped revision 12 runs inside the retry window, a second
+   one at 14 after the repair removes every record of the key: valid, quiescent, three events, nothing left physically *)
+Example C09_compaction_inhabited :
+  xwf_allb (init_state 10) xw_good = true /\
+  let p := xrun (init_state 10) xw_good in
+  quiescentb p = true /\ s_committed p = 14 /\ floor_from 0 xw_good = 14 /\ vers p 0 = [] /\
+  length (vers (run (init_state 10) (base_labels xw_good)) 0) = 4%nat /\
+  map ev_obs (s_events p) = [(VDelete, 0, xw_v2, 14, 12); (VPut, 0, xw_v2, 12, 12); (VCreate, 0, xw_v1, 11, 11)].
+Proof. exact xw_good_ok. Qed.
+
+(* the cap is needed: a compaction at 13 (not below the queued revision 13) inside the window removes the landed
+   tombstone before the repair has read it; the repair finds nothing to announce: a watcher from 12 keeps k0 = v2 for good
+   (no event after 12) while the store at 13 has no k0 *)
+Example C09_compaction_cap_needed :
+  xwf_allb (init_state 10) xw_bad = false /\ xwf_allb (init_state 10) xw_before = true /\
+  let p0 := xrun (init_state 10) xw_before in let p := xrun (init_state 10) xw_bad in
+  quiescentb p = true /\ s_committed p0 = 13 /\ s_committed p = 13 /\
+  snap p0 12 0 = Some (xw_v2, 12) /\ events_after 12 (s_events p) = [] /\ snap p 13 0 = None /\ snap p0 13 0 = None /\
+  map ev_obs (s_events p) = [(VPut, 0, xw_v2, 12, 12); (VCreate, 0, xw_v1, 11, 11)].
+Proof. exact xw_bad_diverges. Qed.
+
+(* ---------- the system drains ---------- *)
+(* from every reachable state there is a continuation in which no new request arrives and the engine answers every call
+   (ok_label: every LThread / LRetry carries EnvOk) that ends quiescent: every request answered, sequencer idle, every
+   allocated revision committed, retry queue empty   [<- C09_request_terminates, C09_progress, one retry iteration with
+   EnvOk removes the queue's head] *)
+Theorem C09_drains : forall r0 ls,
+  Forall wf_label ls ->
+  exists ls', Forall wf_label ls' /\ Forall ok_label ls' /\ quiescentb (run (run (init_state r0) ls) ls') = true.
+Proof. exact drains. Qed.
+Print Assumptions C09_drains.
+
+(* ... and there, store and event stream agree: the unconditional form of "repaired once the engine answers again" *)
+Theorem C09_drains_and_converges : forall r0 ls,
+  Forall wf_label ls ->
+  exists ls', Forall wf_label ls' /\ Forall ok_label ls' /\
+    let s := run (run (init_state r0) ls) ls' in quiescentb s = true /\ forall R0 k, converged_at s R0 k.
+Proof. exact drains_and_converges. Qed.
+Print Assumptions C09_drains_and_converges.
+
+(* ---------- hypotheses of the theorems above are inhabited ---------- *)
+(* C09_progress_not_blocked / C09_progress: an e_unc event in slot committed+1, sequencer idle, nothing in flight, dealt > committed *)
+Example C09_progress_hypotheses_inhabited :
+  let s := run (init_state 10) unc_slot_ls in
+  Forall wf_label unc_slot_ls /\ s_seq s = SeqIdle /\ s_committed s = 10 /\ s_dealt s = 11 /\
+  (exists ev, s_slots s (s_committed s + 1) = Some ev /\ e_unc ev = true /\ e_valid ev = false) /\
+  no_live_request s /\ retry_rev (s_retry s) = None.
+Proof. exact progress_hypotheses_inhabited. Qed.
+
+Example C09_ack_durable_inhabited :
+  let s := run (init_state 10) (firstn 5 repaired_witness) in
+  Forall wf_label (firstn 5 repaired_witness) /\
+  exists th, get_thread 0 (s_threads s) = Some th /\ t_pc th = PDone (ROk 11 None) /\ In (11, v1) (vers s 0).
+Proof. exact ack_hypotheses_inhabited. Qed.
+
+Example C09_front_metrics_reformat_outside_inhabited :
+  let b := mk_batch 0 CAbsent 11 false [118] in
+  cond_holds (b_cond b) (k_idx (empty_store (b_key b))) = true /\ apply_batch empty_store b <> empty_store.
+Proof. exact reformat_hypotheses_inhabited. Qed.
+
+(* ---------- the retry queue holds positive revisions ---------- *)
+(* asyncFifoRetryImpl.MinRevision answers 0 for an empty queue (min_head [] = 0, as the Go code); the cap computation reads
+   0 as "nothing queued". That is sound because no queued revision is 0: *)
+Theorem C09_queue_revisions_positive : forall r0 s, reach r0 s -> forall ev t, In (ev, t) (s_queue s) -> 0 < e_rev ev.
+Proof. exact reach_queue_pos. Qed.
+Print Assumptions C09_queue_revisions_positive.
+
+(* ---------- the fuel of the script interpreter's macro runners suffices ---------- *)
+(* run_thread 12 answers the request; run_retry 8 ends the iteration; settle seq_fuel (64) brings the sequencer to rest
+   whenever at most 21 allocated revisions are uncommitted *)
+Theorem C09_fuel_run_thread : forall r0 s t envs gerr, reach r0 s -> answered (run_thread 12 t envs gerr s) t.
+Proof. exact run_thread_fuel. Qed.
+Print Assumptions C09_fuel_run_thread.
+
+Theorem C09_fuel_run_retry : forall e gerr s, s_retry s = RIdle -> s_retry (run_retry 8 e gerr s) = RIdle.
+Proof. exact run_retry_fuel. Qed.
+Print Assumptions C09_fuel_run_retry.
+
+Theorem C09_fuel_settle : forall r0 s held,
+  reach r0 s -> s_dealt s - s_committed s <= 21 -> at_rest held (settle seq_fuel held s).
+Proof. exact settle_fuel. Qed.
+Print Assumptions C09_fuel_settle.
